@@ -459,6 +459,17 @@ class Violations:
                 v['occurrences'] = occ
             self.by_sig[key] = (size, v)
 
-    def as_list(self):
-        out = [v for _, v in sorted(self.by_sig.values(), key=lambda t: (t[1]['clause'], t[1]['signature']))]
+    def as_list(self, per_clause=8):
+        """at most per_clause signatures of every clause, smallest inputs first"""
+        by_clause = {}
+        for size, v in self.by_sig.values():
+            by_clause.setdefault(v['clause'], []).append((size, v['signature'], v))
+        out = []
+        for clause in sorted(by_clause):
+            kept = sorted(by_clause[clause], key=lambda t: (t[0], t[1]))[:per_clause]
+            dropped = len(by_clause[clause]) - len(kept)
+            for _, _, v in kept:
+                if dropped:
+                    v = dict(v, further_signatures_of_clause=dropped)
+                out.append(v)
         return out[: self.limit]
